@@ -616,6 +616,13 @@ func (g *G) sharedItem() stackitem.Item {
 	for i := range refs {
 		refs[i] = mid
 	}
+	// pad with primitives to land exactly on / next to the limit
+	if total := 1 + n*cm; total < stackitem.MaxSerialized+2 && g.r.Chance(2, 3) {
+		want := stackitem.MaxSerialized - 1 + g.r.Intn(4) // 2047 … 2050 items
+		for ; total < want; total++ {
+			refs = append(refs, stackitem.Null{})
+		}
+	}
 	if g.r.Chance(1, 4) {
 		m := stackitem.NewMap()
 		for i := range refs {
